@@ -87,9 +87,16 @@ def _gen_points(t, dim, n, scale, origin, kind, hbase):
         for _ in range(n):
             pts.append(coord([origin[k] + cs * t.int(0, m) for k in range(3)]))
     elif kind == 'collinear':
+        # on a line along one coordinate axis (the structure is then one cell thick in the others) or along a diagonal
+        ax = t.int(0, dim - 1)
+        diag = t.bool(0.3)
         for _ in range(n):
             s = t.unit()
-            pts.append(coord([origin[0] + scale * s, origin[1] + (scale * s if t.bool(0.5) else 0.0), origin[2]]))
+            p = [origin[0], origin[1], origin[2]]
+            for k in range(dim):
+                if k == ax or diag:
+                    p[k] = origin[k] + scale * s
+            pts.append(coord(p))
     elif kind == 'coincident':
         base = [[origin[k] + scale * t.unit() for k in range(3)] for _ in range(t.int(1, 3))]
         for _ in range(n):
